@@ -34,7 +34,7 @@ FREE_IDS = [0x123, 0x18ABCDEF, 0x3FF]
 
 def plan(tier, seed):
     n = 8
-    return [{"histories": 12 if tier == "quick" else 60, "length": 50 if tier == "quick" else 400, "part": i, "parts": n,
+    return [{"histories": 12 if tier == "quick" else 300, "length": 50 if tier == "quick" else 400, "part": i, "parts": n,
              "cs": seed * 100 + i} for i in range(n)]
 
 
